@@ -134,6 +134,9 @@ func oracle(st *state, f []string, out string) (string, string) {
 	o := parseOut(out)
 	if o.kind == "PANIC" || o.kind == "TIMEOUT" {
 		if f[0] == "repeat" {
+			if hugeRepeat(u(f[1]), f[2]) {
+				return fail("repeat-alloc-crash", "str:repeat %q %s (a result that fits in an int but not in memory): %s", u(f[1]), f[2], out)
+			}
 			return fail("repeat-overflow-crash", "str:repeat %q %s: %s", u(f[1]), f[2], out)
 		}
 		return fail("crash-"+f[0], "%s", out)
@@ -253,9 +256,15 @@ func oracle(st *state, f []string, out string) (string, string) {
 			if o.kind != "EXC" || !strings.HasPrefix(o.exc, "BV|n|") {
 				return fail("repeat-negative", "n=%s: %s", f[2], out)
 			}
+		case out == "UNCAPPED-NOT-RUN":
+			return fail("repeat-alloc-crash", "str:repeat has no result-size cap (str:repeat '~' 9223372036854775807 does not end in the bad-value error); %q × %s was not run", s, f[2])
 		case prod.Cmp(big.NewInt(9223372036854775807)) > 0:
 			if o.kind != "EXC" || !strings.HasPrefix(o.exc, "BV|n|") {
 				return fail("repeat-overflow-crash", "len·n = %s overflows: %s", prod, out)
+			}
+		case prod.Cmp(big.NewInt(2147483647)) > 0:
+			if o.kind != "EXC" || !strings.HasPrefix(o.exc, "BV|n|small enough for the result not to exceed 2147483647 bytes|") {
+				return fail("repeat-cap", "len·n = %s exceeds the documented maximum: %s", prod, out)
 			}
 		default:
 			got, ok := o.oneStr()
@@ -362,8 +371,10 @@ func oracle(st *state, f []string, out string) (string, string) {
 		}
 	case "lib":
 		return oracleLib(st, f)
-	case "quote", "find", "resplit", "rematch", "rereplace":
+	case "quote", "find", "resplit", "rematch", "rereplace", "awk":
 		return oracleRe(f, o, out)
+	case "reset":
+		return "", ""
 	default:
 		if binOps[f[0]] {
 			return oracleBin(f, o, out)
